@@ -98,9 +98,9 @@ CONSTANTS Sids,         \* session ids
 
 VARIABLES now, last, removed, nv,     \* history (property layer)
           store, tindex,              \* mechanism
-          th, gc, res
+          th, gc
 
-vars == <<now, last, removed, nv, store, tindex, th, gc, res>>
+vars == <<now, last, removed, nv, store, tindex, th, gc>>
 
 NoEntry == [has |-> FALSE, v |-> 0, dl |-> 0]
 Miss    == [hit |-> FALSE, v |-> 0, dl |-> 0]
@@ -145,7 +145,6 @@ Init ==
     /\ tindex = {}
     /\ th = [t \in Threads |-> Idle]
     /\ gc = [pc |-> "idle", todo |-> {}, snap |-> [s \in Sids |-> NoEntry], n0 |-> 0, cur |-> 0, exp |-> FALSE]
-    /\ res = [op |-> "none", s |-> 0, r |-> Miss]
 
 ExpiredCmp(dl, n) == IF Bug = "GcBoundary" THEN dl <= n ELSE dl < n
 
@@ -161,7 +160,7 @@ Call(t, op, s, dl) ==
     /\ th' = [th EXCEPT ![t] = [Idle EXCEPT !.pc = "called", !.op = op, !.s = s, !.dl = dl,
                                              !.v = IF op = "save" THEN nv + 1 ELSE 0,
                                              !.cands = IF op = "load" THEN {AbsVal(s)} ELSE {}]]
-    /\ UNCHANGED <<now, last, removed, store, tindex, gc, res>>
+    /\ UNCHANGED <<now, last, removed, store, tindex, gc>>
 
 (* short_gc of the memory storage over (st, ix): index entries in deadline order, at most GcBatch, each erases the *)
 (* map node it points at (whatever that node holds now) and itself.                                                 *)
@@ -189,7 +188,7 @@ LinSave(t) ==
                IN \E p \in ShortGc(st1, ix1) : store' = p[1] /\ tindex' = p[2]
           ELSE store' = st1 /\ tindex' = tindex
        /\ th' = Observe(Finish(t, Miss, th), l1, r1, now)
-       /\ UNCHANGED <<now, nv, gc, res>>
+       /\ UNCHANGED <<now, nv, gc>>
 
 LinRemove(t) ==
     LET s == th[t].s
@@ -203,7 +202,7 @@ LinRemove(t) ==
                ELSE store' = store /\ tindex' = tindex        \* `if(p==map_.end()) return;' - no short_gc
           ELSE store' = st1 /\ tindex' = tindex
        /\ th' = Observe(Finish(t, Miss, th), last, r1, now)
-       /\ UNCHANGED <<now, last, nv, gc, res>>
+       /\ UNCHANGED <<now, last, nv, gc>>
 
 \* the reply of the tcp server: `int toffset = timeout; if(toffset < 0) no_data'
 TruncLoad(r) == IF Net /\ r.hit /\ r.dl > IntMax THEN Miss ELSE r
@@ -218,25 +217,24 @@ LinLoad(t) ==
        /\ IF Backend = "files" /\ e.has /\ ~r.hit
           THEN store' = [store EXCEPT ![s] = NoEntry]      \* D2: read_from_file failed -> unlink
           ELSE store' = store
-       /\ UNCHANGED <<now, last, removed, nv, tindex, gc, res>>
+       /\ UNCHANGED <<now, last, removed, nv, tindex, gc>>
 
 \* seeded bug: the header (deadline) and the payload are read in two separate critical sections
 LoadHdr(t) ==
     /\ Bug = "LoadNoLock" /\ Backend = "files"
     /\ th[t].pc = "called" /\ th[t].op = "load"
     /\ th' = [th EXCEPT ![t] = [@ EXCEPT !.pc = "mid", !.tmp = store[th[t].s]]]
-    /\ UNCHANGED <<now, last, removed, nv, store, tindex, gc, res>>
+    /\ UNCHANGED <<now, last, removed, nv, store, tindex, gc>>
 LoadBody(t) ==
     LET s == th[t].s
         h == th[t].tmp
     IN /\ Bug = "LoadNoLock"
        /\ th[t].pc = "mid"
        /\ th' = Finish(t, IF h.has /\ h.dl >= now /\ store[s].has THEN Hit(store[s].v, h.dl) ELSE Miss, th)
-       /\ UNCHANGED <<now, last, removed, nv, store, tindex, gc, res>>
+       /\ UNCHANGED <<now, last, removed, nv, store, tindex, gc>>
 
 Ret(t) ==
     /\ th[t].pc = "done"
-    /\ res' = [op |-> th[t].op, s |-> th[t].s, r |-> th[t].r]
     /\ th' = [th EXCEPT ![t] = Idle]
     /\ UNCHANGED <<now, last, removed, nv, store, tindex, gc>>
 
@@ -245,30 +243,30 @@ GcStart ==
     /\ Backend = "files"
     /\ gc.pc = "idle"
     /\ gc' = [gc EXCEPT !.pc = "scan", !.todo = HeldOf(store), !.snap = store, !.n0 = now]
-    /\ UNCHANGED <<now, last, removed, nv, store, tindex, th, res>>
+    /\ UNCHANGED <<now, last, removed, nv, store, tindex, th>>
 GcFile(s) ==
     /\ gc.pc = "scan" /\ s \in gc.todo /\ Bug # "GcNoLock"
     /\ store' = IF store[s].has /\ ExpiredCmp(store[s].dl, now) THEN [store EXCEPT ![s] = NoEntry] ELSE store
     /\ gc' = [gc EXCEPT !.todo = @ \ {s}]
-    /\ UNCHANGED <<now, last, removed, nv, tindex, th, res>>
+    /\ UNCHANGED <<now, last, removed, nv, tindex, th>>
 GcPeek(s) ==      \* seeded bug: stamp read ...
     /\ gc.pc = "scan" /\ s \in gc.todo /\ Bug = "GcNoLock"
     /\ gc' = [gc EXCEPT !.pc = "peeked", !.cur = s, !.exp = store[s].has /\ ExpiredCmp(store[s].dl, now)]
-    /\ UNCHANGED <<now, last, removed, nv, store, tindex, th, res>>
+    /\ UNCHANGED <<now, last, removed, nv, store, tindex, th>>
 GcUnlink ==       \* ... and the unlink in another critical section
     /\ gc.pc = "peeked"
     /\ store' = IF gc.exp THEN [store EXCEPT ![gc.cur] = NoEntry] ELSE store
     /\ gc' = [gc EXCEPT !.pc = "scan", !.todo = @ \ {gc.cur}]
-    /\ UNCHANGED <<now, last, removed, nv, tindex, th, res>>
+    /\ UNCHANGED <<now, last, removed, nv, tindex, th>>
 GcEnd ==
     /\ gc.pc = "scan" /\ gc.todo = {}
-    /\ gc' = [gc EXCEPT !.pc = "idle"]
-    /\ UNCHANGED <<now, last, removed, nv, store, tindex, th, res>>
+    /\ gc' = [gc EXCEPT !.pc = "idle", !.snap = [s \in Sids |-> NoEntry], !.n0 = 0]
+    /\ UNCHANGED <<now, last, removed, nv, store, tindex, th>>
 
 Tick ==
     /\ now' = now + 1
     /\ th' = Observe(th, last, removed, now + 1)
-    /\ UNCHANGED <<last, removed, nv, store, tindex, gc, res>>
+    /\ UNCHANGED <<last, removed, nv, store, tindex, gc>>
 
 Next ==
     \/ \E t \in Threads, s \in Sids :
@@ -291,11 +289,6 @@ TypeOK ==
 
 LoadCorrect ==
     \A t \in Threads : (th[t].pc = "done" /\ th[t].op = "load") => th[t].r \in th[t].cands
-
-\* with one thread and no step between Call and Lin the candidate set is the singleton {AbsVal(s)}: clause (a) verbatim
-LoadExactSeq ==
-    (Cardinality(Threads) = 1) =>
-        \A t \in Threads : (th[t].pc = "done" /\ th[t].op = "load" /\ Cardinality(th[t].cands) = 1) => th[t].r = AbsVal(th[t].s)
 
 LiveKept  == LiveKeptP(store, last, removed, now)
 HeldSound == HeldSoundP(store, last, removed)
